@@ -25,8 +25,8 @@ RULE = ('every (key, group, chain id) of the universe is signed once; distinct =
 BOUND = {
     'quick': '2 keys per curve (tz1..tz4) x {10 non-consensus kinds + endorsement (3 levels) + endorsement_with_slot, 9 same-pass '
              'batches of 2}; chain id None or mainnet for non-consensus, {mainnet, 00000000} for consensus',
-    'thorough': '3 keys per curve (incl. order-1) x {4-8 variants of each of the 10 non-consensus kinds, 4 consensus contents, all 64 '
-                'ordered manager-kind pairs + activate_account pair} x chain ids {None/mainnet, 00000000, ffffffff}',
+    'thorough': '3 keys per curve (incl. order-1) x {up to 8 variants of each of the 10 non-consensus kinds, 4 consensus contents x 3 chain '
+                'ids, all 64 ordered manager-kind pairs + activate_account pair}; tz4 keys: 3 variants per kind and the 8 cyclic pairs',
 }
 ASSUMPTIONS = [
     'independent verifiers: `cryptography` (OpenSSL) for Ed25519 / ECDSA, py_ecc curve + pairing primitives for BLS; '
@@ -157,18 +157,20 @@ def consensus_contents():
             {'kind': 'endorsement_with_slot', 'endorsement': inner, 'slot': 7}]
 
 
-def groups(tier: str):
-    """list of (contents, chain ids to use)"""
+def groups(tier: str, curve: str = 'ed'):
+    """list of (contents, chain ids to use).  BLS signing + pairing verification costs ~0.7 s per case, so in the thorough
+    tier tz4 keys get 3 variants per kind and the cyclic pairs instead of 8 variants and all ordered pairs."""
     q = tier == 'quick'
+    slim = q or curve == 'BL'
     out = []
     for kind in c06.KINDS:
         vs = c06.variants(kind, 'quick')
-        for c in (vs[2:3] or vs[:1]) if q else vs[:8]:
+        for c in (vs[2:3] or vs[:1]) if q else vs[:3 if slim else 8]:
             out.append(([c], [None if len(out) % 2 else CHAIN_IDS[0]]))
     for c in consensus_contents():
         out.append(([c], CHAIN_IDS[:2] if q else CHAIN_IDS))
     man = [k for k in c06.KINDS if k in c06.MANAGER]
-    pairs = [(man[i], man[(i + 1) % len(man)]) for i in range(len(man))] if q else [(a, b) for a in man for b in man]
+    pairs = [(man[i], man[(i + 1) % len(man)]) for i in range(len(man))] if slim else [(a, b) for a in man for b in man]
     for a, b in pairs:
         out.append(([c06.variants(a, 'quick')[0], c06.variants(b, 'quick')[-1]], [None]))
     act = c06.variants('activate_account', 'quick')
@@ -179,7 +181,7 @@ def groups(tier: str):
 def all_cases(tier: str, curve: str, ki: int):
     sk = SECRETS[curve][ki]
     src = pkh_of(curve, sk)
-    for n, (contents, chains) in enumerate(groups(tier)):
+    for n, (contents, chains) in enumerate(groups(tier, curve)):
         cs = [({**c, 'source': src} if 'source' in c else c) for c in contents]
         for ch in chains:
             yield {'curve': curve, 'key': encoded_secret(curve, ki), 'chain_id': ch,
